@@ -258,6 +258,8 @@ impl std::str::FromStr for Deb822 {
         let mut current_paragraph = Vec::new();
 
         while let Some((k, t)) = tokens.next() {
+            #[cfg(feature = "verif-hooks")]
+            crate::verif::step();
             match k {
                 SyntaxKind::EMPTY_LINE
                 | SyntaxKind::PARAGRAPH
@@ -307,6 +309,8 @@ impl std::str::FromStr for Deb822 {
                     while tokens.peek().map(|(k, _)| k) == Some(&SyntaxKind::INDENT) {
                         tokens.next();
                         loop {
+                            #[cfg(feature = "verif-hooks")]
+                            crate::verif::step();
                             match tokens.peek() {
                                 Some((SyntaxKind::VALUE, t)) => {
                                     current_paragraph.last_mut().unwrap().value.push_str(t);
